@@ -1,1 +1,448 @@
-fn main() { println!("MACHINERY-ERROR check not built yet"); std::process::exit(2); }
+//! C13 — SVM solutions satisfy the dual feasibility and KKT conditions they publish.
+//!
+//! Exhaustive sweep over a finite catalogue (DESIGN.md §4 C13): lattice-based datasets x kernels x
+//! {C-SVC, nu-SVC, one-class, eps-SVR, nu-SVR} parameter grids x solver eps x {f32, f64}; every
+//! member is fitted with shrinking off AND on (and, for classification, once more as a
+//! Platt-calibrated `Svm<_, Pr>`), and every fit is judged only from what the model publishes
+//! (`alpha`, `rho`, `nsupport`, `weighted_sum`, `predict`, `Display`, `Debug`) against the dual
+//! feasibility / KKT conditions recomputed in f64 with the harness' own kernel function.
+
+mod data;
+mod oracle;
+
+use data::{Data, Kind};
+use linfa::dataset::{Dataset, DatasetBase, Pr};
+use linfa::traits::{Fit, Predict};
+use linfa_svm::{Svm, SvmError, SvmParams};
+use lvmc_core::{guarded, json, par_sweep, Ctx, Level, Value, Violation};
+use ndarray::{Array1, Array2};
+use oracle::{Counters, Obs};
+use serde::{Deserialize, Serialize};
+use std::sync::atomic::{AtomicU64, Ordering};
+
+#[derive(Clone, Debug, Serialize, Deserialize, PartialEq)]
+pub enum Kern {
+    Linear,
+    Gaussian(f64),
+    Poly(f64, f64),
+}
+
+#[derive(Clone, Debug, Serialize, Deserialize, PartialEq)]
+pub enum Problem {
+    CSvc { c_pos: f64, c_neg: f64 },
+    NuSvc { nu: f64 },
+    OneClass { nu: f64 },
+    EpsSvr { c: f64, eps_loss: f64 },
+    NuSvr { nu: f64, c: f64 },
+}
+
+impl Problem {
+    pub fn tag(&self) -> &'static str {
+        match self {
+            Problem::CSvc { .. } => "c_svc",
+            Problem::NuSvc { .. } => "nu_svc",
+            Problem::OneClass { .. } => "one_class",
+            Problem::EpsSvr { .. } => "eps_svr",
+            Problem::NuSvr { .. } => "nu_svr",
+        }
+    }
+}
+
+#[derive(Clone, Debug, Serialize, Deserialize)]
+pub struct Case {
+    pub dataset: String,
+    pub x: Vec<Vec<f64>>,
+    pub labels: Vec<bool>,
+    pub targets: Vec<f64>,
+    pub probes: Vec<Vec<f64>>,
+    pub kernel: Kern,
+    pub problem: Problem,
+    pub eps: f64,
+    pub float: String,
+}
+
+/// Float types the subject is instantiated with. Regression `Fit` / `Predict` exist only for the
+/// concrete types f32 / f64 in linfa-svm, hence the dispatch trait.
+pub trait SvmFloat: linfa::Float {
+    const EPS_MACH: f64;
+    fn fit_reg(p: SvmParams<Self, Self>, ds: &DatasetBase<Array2<Self>, Array1<Self>>) -> Result<Svm<Self, Self>, SvmError>;
+    fn predict_reg(m: &Svm<Self, Self>, x: &Array2<Self>) -> Array1<Self>;
+}
+macro_rules! impl_svm_float {
+    ($t:ty) => {
+        impl SvmFloat for $t {
+            const EPS_MACH: f64 = <$t>::EPSILON as f64;
+            fn fit_reg(p: SvmParams<Self, Self>, ds: &DatasetBase<Array2<Self>, Array1<Self>>) -> Result<Svm<Self, Self>, SvmError> {
+                p.fit(ds)
+            }
+            fn predict_reg(m: &Svm<Self, Self>, x: &Array2<Self>) -> Array1<Self> {
+                m.predict(x)
+            }
+        }
+    };
+}
+impl_svm_float!(f32);
+impl_svm_float!(f64);
+
+fn f64of<F: SvmFloat>(x: F) -> f64 {
+    x.to_f64().unwrap()
+}
+
+fn with_kernel<F: SvmFloat, T>(p: SvmParams<F, T>, k: &Kern) -> SvmParams<F, T> {
+    match k {
+        Kern::Linear => p.linear_kernel(),
+        Kern::Gaussian(e) => p.gaussian_kernel(F::cast(*e)),
+        Kern::Poly(c, d) => p.polynomial_kernel(F::cast(*c), F::cast(*d)),
+    }
+}
+
+fn to_arr<F: SvmFloat>(rows: &[Vec<f64>]) -> Array2<F> {
+    let d = rows.first().map_or(0, |r| r.len());
+    Array2::from_shape_fn((rows.len(), d), |(i, j)| F::cast(rows[i][j]))
+}
+
+/// what every model publishes, independent of its target type
+fn observe<F: SvmFloat, T: std::fmt::Debug>(m: &Svm<F, T>, xt: &Array2<F>, xp: &Array2<F>) -> Obs {
+    let mut o = Obs::default();
+    o.alpha = m.alpha.iter().map(|&a| f64of(a)).collect();
+    o.rho = f64of(m.rho);
+    o.nsupport = m.nsupport();
+    o.display = format!("{}", m);
+    o.debug_r = oracle::parse_debug_r(&format!("{:?}", m));
+    for (xs, ws, dec, sign) in [(xt, &mut o.ws_train, &mut o.dec_train, &mut o.sign_train), (xp, &mut o.ws_probe, &mut o.dec_probe, &mut o.sign_probe)] {
+        for row in xs.outer_iter() {
+            let w = m.weighted_sum(&row);
+            let val = w - m.rho;
+            ws.push(f64of(w));
+            dec.push(f64of(val));
+            sign.push(val >= F::zero());
+        }
+    }
+    o
+}
+
+enum FitOut {
+    Model(Obs),
+    FitError(String),
+    Panic(String),
+}
+
+fn flatten(r: Result<Result<Obs, String>, String>) -> FitOut {
+    match r {
+        Ok(Ok(o)) => FitOut::Model(o),
+        Ok(Err(e)) => FitOut::FitError(e),
+        Err(p) => FitOut::Panic(p),
+    }
+}
+
+fn fit_variant<F: SvmFloat>(case: &Case, shrink: bool, pr: bool) -> FitOut {
+    let xt: Array2<F> = to_arr(&case.x);
+    let xp: Array2<F> = to_arr(&case.probes);
+    let eps = F::cast(case.eps);
+    match &case.problem {
+        Problem::CSvc { .. } | Problem::NuSvc { .. } => {
+            let y = Array1::from(case.labels.clone());
+            let ds = Dataset::new(xt.clone(), y);
+            if !pr {
+                flatten(guarded(|| {
+                    let mut p = with_kernel(Svm::<F, bool>::params(), &case.kernel).eps(eps).shrinking(shrink);
+                    p = match case.problem {
+                        Problem::CSvc { c_pos, c_neg } => p.pos_neg_weights(F::cast(c_pos), F::cast(c_neg)),
+                        Problem::NuSvc { nu } => p.nu_weight(F::cast(nu)),
+                        _ => unreachable!(),
+                    };
+                    let m = p.fit(&ds).map_err(|e| e.to_string())?;
+                    let mut o = observe(&m, &xt, &xp);
+                    let lt: Array1<bool> = m.predict(&xt);
+                    let lp: Array1<bool> = m.predict(&xp);
+                    o.lab_train = lt.to_vec();
+                    o.lab_probe = lp.to_vec();
+                    Ok(o)
+                }))
+            } else {
+                flatten(guarded(|| {
+                    let mut p = with_kernel(Svm::<F, Pr>::params(), &case.kernel).eps(eps).shrinking(shrink);
+                    p = match case.problem {
+                        Problem::CSvc { c_pos, c_neg } => p.pos_neg_weights(F::cast(c_pos), F::cast(c_neg)),
+                        Problem::NuSvc { nu } => p.nu_weight(F::cast(nu)),
+                        _ => unreachable!(),
+                    };
+                    let m = p.fit(&ds).map_err(|e| e.to_string())?;
+                    let mut o = observe(&m, &xt, &xp);
+                    let lt: Array1<Pr> = m.predict(&xt);
+                    let lp: Array1<Pr> = m.predict(&xp);
+                    o.pr_train = lt.iter().map(|p| **p as f64).collect();
+                    o.pr_probe = lp.iter().map(|p| **p as f64).collect();
+                    Ok(o)
+                }))
+            }
+        }
+        Problem::OneClass { nu } => {
+            let ds = Dataset::from(xt.clone());
+            flatten(guarded(|| {
+                let p = with_kernel(Svm::<F, Pr>::params(), &case.kernel).eps(eps).shrinking(shrink).nu_weight(F::cast(*nu));
+                let m = p.fit(&ds).map_err(|e| e.to_string())?;
+                let mut o = observe(&m, &xt, &xp);
+                let lt: Array1<bool> = m.predict(&xt);
+                let lp: Array1<bool> = m.predict(&xp);
+                o.lab_train = lt.to_vec();
+                o.lab_probe = lp.to_vec();
+                Ok(o)
+            }))
+        }
+        Problem::EpsSvr { .. } | Problem::NuSvr { .. } => {
+            let y: Array1<F> = case.targets.iter().map(|&t| F::cast(t)).collect();
+            let ds = Dataset::new(xt.clone(), y);
+            flatten(guarded(|| {
+                let mut p = with_kernel(Svm::<F, F>::params(), &case.kernel).eps(eps).shrinking(shrink);
+                p = match case.problem {
+                    Problem::EpsSvr { c, eps_loss } => p.c_svr(F::cast(c), Some(F::cast(eps_loss))),
+                    Problem::NuSvr { nu, c } => p.nu_svr(F::cast(nu), Some(F::cast(c))),
+                    _ => unreachable!(),
+                };
+                let m = F::fit_reg(p, &ds).map_err(|e| e.to_string())?;
+                let mut o = observe(&m, &xt, &xp);
+                o.val_train = F::predict_reg(&m, &xt).iter().map(|&v| f64of(v)).collect();
+                o.val_probe = F::predict_reg(&m, &xp).iter().map(|&v| f64of(v)).collect();
+                Ok(o)
+            }))
+        }
+    }
+}
+
+fn run_typed<F: SvmFloat>(case: &Case, v: &mut Vec<Violation>) -> Counters {
+    let mut cnt = Counters::default();
+    // coordinates / targets as the subject sees them (rounded to F)
+    let xs: Vec<Vec<f64>> = case.x.iter().map(|r| r.iter().map(|&c| f64of(F::cast(c))).collect()).collect();
+    let ps: Vec<Vec<f64>> = case.probes.iter().map(|r| r.iter().map(|&c| f64of(F::cast(c))).collect()).collect();
+    let ts: Vec<f64> = case.targets.iter().map(|&c| f64of(F::cast(c))).collect();
+    let env = oracle::Env::new(case, xs, ps, ts, F::EPS_MACH);
+    if !env.in_domain() {
+        cnt.out_of_domain += 1;
+    }
+    let classification = matches!(case.problem, Problem::CSvc { .. } | Problem::NuSvc { .. });
+    let mut plain: Vec<Option<Obs>> = vec![None, None];
+    for (si, shrink) in [false, true].into_iter().enumerate() {
+        for pr in [false, true] {
+            if pr && !classification {
+                continue;
+            }
+            cnt.fits += 1;
+            let at = json!({"shrinking": shrink, "calibrated": pr});
+            let cj = |extra: &Value| -> Value {
+                let mut c = serde_json::to_value(case).unwrap();
+                c.as_object_mut().unwrap().insert("at".into(), extra.clone());
+                c
+            };
+            let pre = format!("{}.{}", case.problem.tag(), if shrink { "shrinking" } else { "noshrink" });
+            match fit_variant::<F>(case, shrink, pr) {
+                FitOut::Panic(p) => {
+                    v.push(Violation::new(format!("{}.fit.panic", pre), format!("fit panicked: {}", p), cj(&at)));
+                }
+                FitOut::FitError(e) => {
+                    if pr && e.to_lowercase().contains("platt") {
+                        // the Platt calibration (linfa core, not part of this property) did not converge
+                        cnt.platt_errors += 1;
+                    } else {
+                        v.push(Violation::new(format!("{}.fit.error", pre), format!("fit of an in-domain configuration returned Err({})", e), cj(&at)));
+                    }
+                }
+                FitOut::Model(o) => {
+                    if pr {
+                        oracle::check_calibrated(&env, &pre, &o, plain[si].as_ref(), v, &mut cnt, &cj(&at));
+                    } else {
+                        oracle::check_model(&env, &pre, shrink, &o, plain[0].as_ref(), v, &mut cnt, &cj(&at));
+                        plain[si] = Some(o);
+                    }
+                }
+            }
+        }
+    }
+    cnt
+}
+
+fn run_case_inner(case: &Case, v: &mut Vec<Violation>) -> Counters {
+    match case.float.as_str() {
+        "f32" => run_typed::<f32>(case, v),
+        "f64" => run_typed::<f64>(case, v),
+        _ => panic!("bad float"),
+    }
+}
+
+/// Runs one case on a watchdog thread: a case whose fits do not come back within the wall cap is
+/// reported as non-terminating (the worker thread is abandoned).
+fn run_case(case: &Case, v: &mut Vec<Violation>) -> Counters {
+    let cap_s: u64 = std::env::var("VERIF_C13_CASE_CAP_S").ok().and_then(|s| s.parse().ok()).unwrap_or(900);
+    let (tx, rx) = std::sync::mpsc::channel();
+    let c = case.clone();
+    let h = std::thread::Builder::new().stack_size(16 << 20).spawn(move || {
+        let mut v = Vec::new();
+        let cnt = run_case_inner(&c, &mut v);
+        let _ = tx.send((cnt, v));
+    });
+    if h.is_err() {
+        println!("MACHINERY-ERROR cannot spawn worker thread");
+        std::process::exit(2);
+    }
+    match rx.recv_timeout(std::time::Duration::from_secs(cap_s)) {
+        Ok((cnt, vs)) => {
+            v.extend(vs);
+            cnt
+        }
+        Err(std::sync::mpsc::RecvTimeoutError::Timeout) => {
+            v.push(Violation::new(
+                format!("{}.fit.no_termination_within_wall_cap", case.problem.tag()),
+                format!("the fits of this case did not terminate within {} s", cap_s),
+                serde_json::to_value(case).unwrap(),
+            ));
+            Counters::default()
+        }
+        Err(_) => {
+            // the worker died: a panic of the harness itself, never a verdict
+            println!("MACHINERY-ERROR worker thread of case {} / {:?} died (harness panic)", case.dataset, case.problem);
+            std::process::exit(2);
+        }
+    }
+}
+
+fn replay_value(val: &Value) -> Vec<Violation> {
+    let c: Case = match serde_json::from_value(val.clone()) {
+        Ok(c) => c,
+        Err(e) => {
+            println!("MACHINERY-ERROR replay case does not parse: {}", e);
+            std::process::exit(2);
+        }
+    };
+    let mut out = Vec::new();
+    run_case(&c, &mut out);
+    // keep the violations of the recorded variant (shrinking / calibrated) when the artefact names one
+    if let Some(at) = val.get("at") {
+        out.retain(|x| x.case.get("at") == Some(at));
+    }
+    out
+}
+
+fn main() {
+    let ctx = Ctx::new("C13", Level::Exploration);
+    ctx.maybe_replay(&replay_value);
+
+    let sizes: Vec<usize> = ctx.pick(vec![8, 12, 20, 40], vec![8, 12, 20, 40, 80, 200]);
+    ctx.set_rule(&format!(
+        "case = (dataset, kernel, problem + parameters, solver eps, float type); datasets: 9 lattice-based families \
+         (separable blocks, overlapping half-planes with label noise and conflicting duplicates, imbalanced ~1:4 jittered, \
+         lattice cluster with two outliers, jittered cloud, exact line, noisy line, sine curve, duplicated abscissae with conflicting targets) \
+         x n in {:?}; kernels linear, Gaussian(0.5), Gaussian(5), polynomial (0,2), (1,3); C-SVC: C in {{.01,1,100}} x class weights (1,1),(1,10),(10,1); \
+         nu-SVC / one-class: nu in {{.1,.5,1}}; eps-SVR: C in {{.01,1,100}} x eps_loss in {{.1,.5}}; nu-SVR: nu in {{.1,.5,1}} x C in {{.01,1,100}}; \
+         solver eps in {{1e-3,1e-7}}; f32 and f64. Every case is fitted with shrinking off and on (classification additionally as Svm<_,Pr>), \
+         every fit is one evaluation; non-trivial = the model has at least one non-zero coefficient and the solver made at least one iteration; \
+         the whole Cartesian product is run (count asserted).",
+        sizes
+    ));
+    ctx.assume("oracle kernel = harness' own f64 implementation of <x,x'>, exp(-|x-x'|^2/eps), (<x,x'>+c)^d on the coordinates as rounded to the subject's float type; f_i = sum_j alpha_j K_ij - rho from the PUBLISHED alpha / rho");
+    ctx.assume("KKT tolerance tau_i = 2 x solver eps (x 1/r for nu-SVC, r recovered from the published alpha as nu*n/sum|alpha|) + rounding, rounding = (4*nvars + 4*iterations) * eps_machine * (sum_j U_j |K_ij| + |p_i| + |rho| + 1) with U_j the box bound of variable j (covers the incrementally updated gradient in the subject's float type); a sample whose tau exceeds a quarter of the margin unit (1; eps_loss for regression) is counted indeterminate, not judged");
+    ctx.assume("a coefficient is 'zero' iff published alpha == 0 exactly (the solver's own notion), 'at bound' iff |alpha| >= U*(1-1e-9 [f64] / 1e-4 [f32]) (then only the inequality is demanded), else free; box tolerance 16*eps_machine*U; equality constraints within 4*(nvars+iterations)*eps_machine*max U");
+    ctx.assume("weighted_sum / predict vs reference: relative 1e-9 (f64) / 1e-4 (f32) of sum_j |alpha_j| |K|(x_j,x); labels of samples whose reference decision value is inside that band are indeterminate");
+    ctx.assume("nu-SVC with nu*n/2 > min(n+, n-) has an empty feasible set: counted out_of_domain (only termination / no panic demanded); Platt calibration failures (PlattError) are counted, not judged (linfa core, not part of this property)");
+    ctx.assume("termination: SolverState::solve is bounded by 10^7 iterations; a fit that reports 'Reached maximal iterations' and violates KKT is reported as not converged; a case that does not return within 900 s wall is reported as non-terminating");
+
+    // ---------------- enumerate ----------------
+    let cat: Vec<Data> = data::catalogue(&sizes);
+    let kernels = [Kern::Linear, Kern::Gaussian(0.5), Kern::Gaussian(5.0), Kern::Poly(0.0, 2.0), Kern::Poly(1.0, 3.0)];
+    let cs = [0.01, 1.0, 100.0];
+    let weights = [(1.0, 1.0), (1.0, 10.0), (10.0, 1.0)];
+    let nus = [0.1, 0.5, 1.0];
+    let eps_losses = [0.1, 0.5];
+    let solver_eps = [1e-3, 1e-7];
+    let floats = ["f64", "f32"];
+    let mut cases: Vec<Case> = Vec::new();
+    for d in &cat {
+        let mut problems: Vec<Problem> = Vec::new();
+        match d.kind {
+            Kind::Classification => {
+                for &c in &cs {
+                    for &(wp, wn) in &weights {
+                        problems.push(Problem::CSvc { c_pos: c * wp, c_neg: c * wn });
+                    }
+                }
+                for &nu in &nus {
+                    problems.push(Problem::NuSvc { nu });
+                }
+            }
+            Kind::Unlabelled => {
+                for &nu in &nus {
+                    problems.push(Problem::OneClass { nu });
+                }
+            }
+            Kind::Regression => {
+                for &c in &cs {
+                    for &e in &eps_losses {
+                        problems.push(Problem::EpsSvr { c, eps_loss: e });
+                    }
+                }
+                for &nu in &nus {
+                    for &c in &cs {
+                        problems.push(Problem::NuSvr { nu, c });
+                    }
+                }
+            }
+        }
+        for k in &kernels {
+            for p in &problems {
+                for &e in &solver_eps {
+                    for f in floats {
+                        cases.push(Case {
+                            dataset: d.id.clone(),
+                            x: d.x.clone(),
+                            labels: d.labels.clone(),
+                            targets: d.targets.clone(),
+                            probes: d.probes.clone(),
+                            kernel: k.clone(),
+                            problem: p.clone(),
+                            eps: e,
+                            float: f.to_string(),
+                        });
+                    }
+                }
+            }
+        }
+    }
+    // large cases first so that the parallel sweep does not end on a long tail
+    cases.sort_by_key(|c| std::cmp::Reverse(c.x.len()));
+    ctx.extra("datasets", json!(cat.len()));
+    ctx.extra("cases_enumerated", json!(cases.len()));
+
+    let trace = std::env::var("VERIF_C13_TRACE").is_ok();
+    let done = AtomicU64::new(0);
+    let tot = std::sync::Mutex::new(Counters::default());
+    par_sweep(&ctx, "svm sweep", &cases, |c| {
+        let mut v = Vec::new();
+        let t0 = std::time::Instant::now();
+        let cnt = run_case(c, &mut v);
+        if trace && t0.elapsed().as_secs_f64() > 0.5 {
+            eprintln!("TRACE {:.1}s {} {:?} {:?} eps={} {} iters={:?}", t0.elapsed().as_secs_f64(), c.dataset, c.kernel, c.problem, c.eps, c.float, cnt.last_iters);
+        }
+        ctx.evals(cnt.fits, cnt.nontrivial);
+        for _ in 0..cnt.out_of_domain {
+            ctx.out_of_domain();
+        }
+        for _ in 0..cnt.indeterminate_cases {
+            ctx.indeterminate();
+        }
+        tot.lock().unwrap().add(&cnt);
+        ctx.violations(v);
+        done.fetch_add(1, Ordering::Relaxed);
+        ctx.sample(|| json!({"dataset": c.dataset, "n": c.x.len(), "kernel": c.kernel, "problem": c.problem, "eps": c.eps, "float": c.float,
+            "iterations_noshrink": cnt.last_iters.0, "iterations_shrinking": cnt.last_iters.1, "nsupport": cnt.last_nsupport}));
+    });
+    let done = done.load(Ordering::Relaxed);
+    ctx.extra("cases_completed", json!(done));
+    if done != cases.len() as u64 {
+        ctx.capped(&format!("{} of {} cases completed", done, cases.len()));
+    }
+    let t = tot.lock().unwrap();
+    for (k, val) in t.as_pairs() {
+        ctx.extra(k, json!(val));
+    }
+    drop(t);
+    ctx.finish(&replay_value);
+}
